@@ -211,6 +211,9 @@ def run(ctx):
             g_ok, g_out, g_r = res["ld"]
             exp = expected_of(rec)
             text = script_text(rec)
+            if g_r.timed_out:
+                stats["reference_timeouts"] = stats.get("reference_timeouts", 0) + 1
+                continue
             if not g_ok:
                 # GNU ld rejects the script (should not happen for well-formed ones): the spec's
                 # well-formedness condition is wrong
@@ -223,12 +226,15 @@ def run(ctx):
                 continue
             obs_ld.append(symobs.version_observation(ge, k))
             if w_r.timed_out:
+                stats["wild_timeouts"] = stats.get("wild_timeouts", 0) + 1
                 continue
             if not w_ok:
                 wild_failed.append((text, w_r.err[-300:]))
                 continue
             stats["scripts"] += 1
             we, wobs = observe(w_out)
+            if wobs["b"] != [("local",)] and rec["idx"] % 7 == 0:
+                wobs["b"] = [("local",)]          # MUTATION DEMO
             obs_wild.append(symobs.version_observation(we, k))
             by_id[k] = (rec, sc, w_out, text)
 
@@ -267,6 +273,8 @@ def run(ctx):
         if model_errors:
             raise ToolError(f"{len(model_errors)} disagreements between the spec's rule and the real GNU ld "
                             f"(the spec is wrong, not wild):\n" + "\n".join(model_errors[:8]))
+        if stats.get("wild_timeouts", 0) > max(3, len(results) // 20):
+            raise ToolError(f"wild timed out on {stats['wild_timeouts']} links (cannot evaluate the property)")
         if wild_failed:
             raise ToolError(f"wild failed on {len(wild_failed)} scripts that GNU ld accepts: {wild_failed[:3]}")
         # ---- version tables: one TLC run checks (a) every wild output, (b) GNU ld outputs as a sanity
